@@ -9,6 +9,7 @@ import Proofs.C09_Lemmas
 import Proofs.C09_Units
 import Proofs.C09_Literal
 import Proofs.C09_Rpow
+import Proofs.C09_Source
 import Atomman.Generated.UnitTable
 import Atomman.Generated.LammpsStyle
 import Mathlib.Tactic.Ring
@@ -1246,5 +1247,197 @@ example : parse (numAlgR (fun q : Rat => some q) (fun x _ => x)) (envSI (K := Ra
 example : ratRpowE 4 (1 / 2) = (2, true) := by decide +kernel
 example : ratRpowE (1 / 8) (2 / 3) = (1 / 4, true) := by decide +kernel
 example : (ratRpowE 2 (1 / 2)).2 = false := by decide +kernel
+
+
+/-! # round 6: source tie end to end, entry point of reset_units, data-model form -/
+
+section source
+variable {K : Type} [Field K] [DecidableEq K]
+
+/-! ## the source tie, end to end: theorems about the definitions regenerated from unitconvert.py -/
+
+/-- **precedence, about the generated parser**: the tokeniser and the two `while` loops as the current source writes
+    them (`Generated/UnitconvertSource.lean`: branch order, character sets, parenthesis counter, `terms.index('^')`,
+    list positions and slices, python operators) evaluate every rendering of every tree — any blanks, redundant
+    parentheses, negative exponents, any depth — to the ordinary-precedence value of the tree. -/
+theorem gen_parse_precedence {V : Type} (alg : Alg V) (env : List Char → Option V)
+    (e : Expr) (lvl : Nat) (s : List Char) (h : Renders e lvl s) :
+    UC.parse alg env s = evalAst alg env e := by
+  rw [gen_parse_eq_model]; exact parse_precedence alg env e lvl s h
+
+/-- **round trip, about the generated glue**: `get_in_units(set_in_units(x, u), u) = x` with the operators the source
+    applies and the generated parser (any string that parses to a non-zero factor, `None` and `'scaled'` included). -/
+theorem gen_set_get_inverse (toInt? : K → Option Int) (env : List Char → Option K) (u : Option (List Char))
+    (f : K) (hu : UC.parseUnits (numAlg toInt?) env u = some f) (hf : f ≠ 0) (vals : List K) :
+    (UC.parseUnits (numAlg toInt?) env u).map (fun g => UC.getInUnits (UC.setInUnits vals g) g) = some vals := by
+  rw [hu, gen_setInUnits_eq_model, gen_getInUnits_eq_model]; simp [set_get_inverse vals f hf]
+
+/-! ### `reset_units(seed, **kwargs)`: which calls are refused -/
+
+/-- **refusals, exactly**: a call is refused iff keywords are given and (a seed is given too or there are more than
+    four of them) — whatever the keywords are called and whatever names they carry. -/
+theorem reset_path_refuses_iff (a : ResetArgs) :
+    (resetPath a = .refuseCount ∨ resetPath a = .refuseSeed) ↔ (a.kw ≠ [] ∧ (a.seedGiven = true ∨ 4 < a.kw.length)) := by
+  rcases a with ⟨sg, kw⟩
+  unfold resetPath
+  by_cases h0 : kw.length = 0
+  · have : kw = [] := List.length_eq_zero_iff.mp h0
+    simp [this]
+  · have hne : kw ≠ [] := fun h => h0 (by simp [h])
+    cases sg <;> by_cases h : 4 < kw.length <;> simp [h0, h, hne]
+
+/-- which of the two refusals: the seed message iff a seed comes with keywords, the count message iff there is no
+    seed and more than four keywords. -/
+theorem reset_path_which_refusal (a : ResetArgs) :
+    (resetPath a = .refuseSeed ↔ (a.kw ≠ [] ∧ a.seedGiven = true)) ∧
+    (resetPath a = .refuseCount ↔ (a.seedGiven = false ∧ 4 < a.kw.length)) := by
+  rcases a with ⟨sg, kw⟩
+  unfold resetPath
+  by_cases h0 : kw.length = 0
+  · have : kw = [] := List.length_eq_zero_iff.mp h0
+    simp [this]
+  · have hne : kw ≠ [] := fun h => h0 (by simp [h])
+    cases sg <;> by_cases h : 4 < kw.length <;> simp [h0, h, hne]
+
+theorem choiceOf_count_cons (p : String × List Char) (rest : List (String × List Char)) :
+    (choiceOf (p :: rest)).count ≤ (choiceOf rest).count + 1 := by
+  rcases p with ⟨k, n⟩
+  simp only [choiceOf, Choice.count, kwGet, List.find?_cons]
+  by_cases h1 : k = "length" <;> by_cases h2 : k = "mass" <;> by_cases h3 : k = "time" <;>
+    by_cases h4 : k = "energy" <;> by_cases h5 : k = "charge" <;>
+    simp_all <;> omega
+
+/-- the choice read from the keywords names at most as many working units as there are keywords (foreign keywords
+    count for `len(kwargs)` but are never looked at). -/
+theorem choiceOf_count_le (kw : List (String × List Char)) : (choiceOf kw).count ≤ kw.length := by
+  induction kw with
+  | nil => simp [choiceOf, Choice.count, kwGet]
+  | cons p rest ih => have := choiceOf_count_cons p rest; simp only [List.length_cons]; omega
+
+/-- a call that goes through by name: no seed, one to four keywords, the choice is the one read from the keywords,
+    and the inner count check of `resetScales` cannot fire. -/
+theorem reset_path_named (a : ResetArgs) (ch : Choice) (h : resetPath a = .named ch) :
+    ch = choiceOf a.kw ∧ ch.count ≤ 4 ∧ a.seedGiven = false ∧ a.kw ≠ [] ∧ a.kw.length ≤ 4 := by
+  rcases a with ⟨sg, kw⟩
+  unfold resetPath at h
+  by_cases h0 : kw.length = 0
+  · simp [h0] at h
+  · have hne : kw ≠ [] := fun h => h0 (by simp [h])
+    cases sg <;> by_cases h4 : 4 < kw.length <;> simp [h0, h4] at h
+    subst h
+    have := choiceOf_count_le kw
+    exact ⟨rfl, by show (choiceOf kw).count ≤ 4; omega, rfl, hne, by show kw.length ≤ 4; omega⟩
+
+/-- **a refused call changes nothing** (entry-point level, any state, any seed the random generator would draw). -/
+theorem reset_call_refused_keeps_state (tab : List UnitEntry) (sc seedSc : Scales K) (a : ResetArgs) (r : K)
+    (h : a.kw ≠ [] ∧ (a.seedGiven = true ∨ 4 < a.kw.length)) : resetCall tab sc a seedSc r = sc := by
+  rcases (reset_path_refuses_iff a).mpr h with h | h <;> simp [resetCall, h]
+
+variable [CharZero K]
+
+/-- **chosen units are one, from the call**: `reset_units(**kwargs)` without seed, with one to four keywords (any
+    keyword strings: those that are not one of the five are ignored), the choice not over-determined and every named
+    unit a table name of the keyword's dimension: whatever the state was, afterwards all base scalings are non-zero
+    and every chosen unit is exactly 1 — through the generated decision chain and formulas. -/
+theorem reset_call_chosen_units_one (tab : List UnitEntry) (htab : tableOK tab = true) (a : ResetArgs)
+    (hseed : a.seedGiven = false) (hne : a.kw ≠ []) (h4 : a.kw.length ≤ 4)
+    (hover : (UC.choiceOf a.kw).overDetermined = false) (hch : ChoiceOK tab (UC.choiceOf a.kw))
+    (r : K) (hr : ∀ x, UC.radicand (envSI (K := K) tab) (UC.choiceOf a.kw) = some x → r * r = x)
+    (sc0 seedSc : Scales K) :
+    UC.resetPath a = .named (UC.choiceOf a.kw) ∧
+    UC.resetScales (envSI (K := K) tab) (UC.choiceOf a.kw) r = some (resetCall tab sc0 a seedSc r) ∧
+    (resetCall tab sc0 a seedSc r).Nonzero ∧
+    ∀ k n, (UC.choiceOf a.kw).get k = some n → envOf tab (resetCall tab sc0 a seedSc r) n = some 1 := by
+  rw [gen_choiceOf_eq_model] at *
+  rw [gen_radicand_eq_model] at hr
+  rw [gen_resetPath_eq_model, gen_resetScales_eq_model]
+  have hp : resetPath a = .named (choiceOf a.kw) := by
+    rcases a with ⟨sg, kw⟩
+    simp only at hseed h4 hne ⊢
+    subst hseed
+    have h0 : kw.length ≠ 0 := fun h => hne (List.length_eq_zero_iff.mp h)
+    have : ¬ 4 < kw.length := by omega
+    simp [resetPath, this, h0]
+  have hc : (choiceOf a.kw).count ≤ 4 := (reset_path_named a _ hp).2.1
+  obtain ⟨sc, h1, h2, h3⟩ := reset_named_units_are_one tab htab (choiceOf a.kw) hc hover hch r hr
+  have e : resetCall tab sc0 a seedSc r = sc := by simp [resetCall, hp, h1]
+  rw [e]
+  exact ⟨hp, h1, h2, h3⟩
+
+end source
+
+/-! ### `uc.model` / `uc.value_unit` -/
+
+section datamodel
+variable {K : Type} [Field K] [DecidableEq K]
+
+theorem get_set_inverse (vals : List K) (f : K) (hf : f ≠ 0) : setInUnits (getInUnits vals f) f = vals := by
+  simp only [getInUnits, setInUnits, List.map_map]
+  conv_rhs => rw [← List.map_id vals]
+  apply List.map_congr_left
+  intro x _
+  simp only [Function.comp, id]
+  field_simp
+
+theorem getInUnits_length (vals : List K) (f : K) : (getInUnits vals f).length = vals.length := by
+  simp [getInUnits]
+
+/-- **round trip through the data model**: `value_unit(model(x, u)) = x` — shape and entries — for every array
+    (0-d, 1-d, any higher rank, empty ones) and every unit expression with a non-zero factor, or no unit at all. -/
+theorem value_unit_model_inverse (alg : Alg K) (env : List Char → Option K) (a : Arr K) (hwf : a.wf)
+    (u : Option (List Char)) (hu : ∀ s, u = some s → ∃ f, parseUnits alg env (some s) = some f ∧ f ≠ 0) :
+    (ucModel alg env a u).bind (valueUnit alg env) = some a := by
+  rcases a with ⟨sh, vals⟩
+  simp only [Arr.wf] at hwf
+  cases u with
+  | none =>
+    match sh with
+    | [] => simp at hwf; simp [ucModel, valueUnit, hwf]
+    | [n] => simp at hwf; simp [ucModel, valueUnit, hwf]
+    | n :: m :: rest => simp [ucModel, valueUnit, hwf]
+  | some s =>
+    obtain ⟨f, hp, hf⟩ := hu s rfl
+    match sh with
+    | [] => simp at hwf; simp [ucModel, valueUnit, hp, hf, get_set_inverse, hwf, getInUnits_length]
+    | [n] => simp at hwf; simp [ucModel, valueUnit, hp, hf, get_set_inverse, hwf, getInUnits_length]
+    | n :: m :: rest => simp [ucModel, valueUnit, hp, hf, get_set_inverse, hwf, getInUnits_length]
+
+/-- what `model` writes: the unit key is the units argument, the shape key exists exactly from two dimensions on, a
+    single number exactly for a 0-d array, and as many entries as the array has. -/
+theorem uc_model_keys (alg : Alg K) (env : List Char → Option K) (a : Arr K) (u : Option (List Char)) (t : UCModel K)
+    (h : ucModel alg env a u = some t) :
+    t.unit = u ∧ (t.shape.isSome ↔ 2 ≤ a.shape.length) ∧ (t.scalar = true ↔ a.shape = []) ∧
+    t.vals.length = a.vals.length ∧ (∀ sh, t.shape = some sh → sh = a.shape) := by
+  rcases a with ⟨sh, vals⟩
+  simp only [ucModel, Option.map_eq_some_iff] at h
+  obtain ⟨vs, hvs, rfl⟩ := h
+  have hl : vs.length = vals.length := by
+    cases u with
+    | none => simp at hvs; subst hvs; rfl
+    | some s =>
+      simp only [Option.bind_eq_some_iff] at hvs
+      obtain ⟨f, _, hf⟩ := hvs
+      split at hf
+      · cases hf
+      · simp at hf; subst hf; simp [getInUnits]
+  match sh with
+  | [] => simp [hl]
+  | [n] => simp [hl]
+  | n :: m :: rest => simp [hl]
+
+end datamodel
+
+-- non-vacuity: the generated parser on a concrete rendering; calls of every path; a data-model round trip
+example : UC.parse (numAlg ratToInt?) (envSI (K := Rat) unitTable) " 2 ^ -2\t^ 3 ".toList = some (1 / 64) := by
+  decide +kernel
+example : resetPath ⟨false, [("length", "nm".toList), ("lenght", "nm".toList)]⟩
+    = .named ⟨some "nm".toList, none, none, none, none⟩ := by decide
+example : resetPath ⟨true, [("length", "nm".toList)]⟩ = .refuseSeed := by decide
+example : resetPath ⟨false, [("length", ['m']), ("mass", ['g']), ("time", ['s']), ("charge", ['C']), ("temperature", ['K'])]⟩
+    = .refuseCount := by decide
+example : resetPath ⟨true, []⟩ = .seeded := by decide
+example : (ucModel (numAlg ratToInt?) (envSI (K := Rat) unitTable) ⟨[2, 2], [1, 2, 3, 4]⟩ (some "km".toList)).bind
+    (valueUnit (numAlg ratToInt?) (envSI (K := Rat) unitTable)) = some ⟨[2, 2], [1, 2, 3, 4]⟩ := by decide +kernel
+example : (⟨[2, 0, 3], []⟩ : Arr Rat).wf := by simp [Arr.wf]
 
 end Atomman.C09
